@@ -1,7 +1,7 @@
 (* All equivalence proofs between the translated Go functions (Gen/Translated.v) and the hand-written models.
    Each Props/Cxx.v requires only its own file; this one is the whole layer (make Xlate/Tie.vo). *)
 From TarsV Require Xlate.TarsRequestEquiv Xlate.CodecEquiv Xlate.ParseEquiv Xlate.BSWLEquiv Xlate.CheckActiveEquiv
-  Xlate.ReaderEquiv Xlate.ReaderSliceEquiv.
+  Xlate.ReaderEquiv Xlate.ReaderSliceEquiv Xlate.ReqIdEquiv.
 
 Print Assumptions TarsRequestEquiv.tr_TarsRequest_equiv.
 Print Assumptions CodecEquiv.tr_WriteHead_equiv.
@@ -30,3 +30,5 @@ Print Assumptions ReaderEquiv.seek_p_fuel.
 Print Assumptions ReaderEquiv.tr_SkipToNoCheck_total.
 Print Assumptions ReaderEquiv.tr_ReadInt_total.
 Print Assumptions ReaderEquiv.tr_ReadString_total.
+Print Assumptions ReqIdEquiv.tr_genRequestID_equiv.
+Print Assumptions ReqIdEquiv.tr_genRequestID_loop_step.
